@@ -390,7 +390,7 @@ func main() {
 			fmt.Fprintf(&fb, "Definition finalizer_body_%s : string := %s.\n\n", c.tag, coqString(cf.finBody))
 		}
 		fb.WriteString("(* ---- call budgets of the cache methods (translator: harness/srcfacts/skeleton.go) ---- *)\n")
-		fb.WriteString("Inductive stok := TLoad | TStore | TCompute | TLoadAndDelete | TDelete | TClear | TSize | TSnapshot\n  | TNow | TDflt | TWDflt | TCb | TWCb | TFire | TUserFn\n  | TLoadOrStore | TLoadAndStore | TLoadOrCompute | TUnknown.\n\n")
+		fb.WriteString("Inductive stok := TLoad | TStore | TCompute | TLoadAndDelete | TDelete | TClear | TSize | TSnapshot\n  | TNow | TDflt | TWDflt | TCb | TWCb | TFire | TUserFn\n  | TLoadOrStore | TLoadAndStore | TLoadOrCompute | TUnknown | TFireLocked.\n\n")
 		for _, c := range []struct {
 			file, recv string
 			items      []string
